@@ -54,13 +54,17 @@ def sh(cmd, timeout=None, env=None, cwd=None):
 # ------------------------------------------------------------------------------------------------
 # build
 
-def build_harness():
-    """Builds the harness against /repo's current working tree (hooks on). Tool error on failure."""
+def ensure_lock():
     lock = os.path.join(HARNESS, "Cargo.lock")
     if not os.path.exists(lock):
         shutil.copy(os.path.join(REPO, "Cargo.lock"), lock)
+
+
+def build_harness(bin_name="yx"):
+    """Builds one harness binary against /repo's current working tree (hooks on). Tool error on failure."""
+    ensure_lock()
     t0 = time.time()
-    rc, out = sh("cargo build --offline 2>&1", timeout=1800, cwd=HARNESS,
+    rc, out = sh("cargo build --offline --bin %s 2>&1" % bin_name, timeout=1800, cwd=HARNESS,
                  env={"CARGO_NET_OFFLINE": "true"})
     if rc != 0:
         tail = "\n".join(out.splitlines()[-40:])
@@ -331,3 +335,54 @@ def write_replay(prop, bid, schedule, detail):
     with open(p, "w") as f:
         json.dump({"property": prop, "bid": bid, "detail": detail, "schedule": schedule}, f, indent=1)
     return p
+
+
+def match_known(known, preds, info):
+    try:
+        import patterns
+    except ImportError:
+        patterns = None
+    for k in known:
+        if k.get("predicate") and not any(p[0] == k["predicate"] for p in preds):
+            continue
+        fn = getattr(patterns, k.get("pattern", ""), None) if patterns else None
+        if k.get("pattern") and fn is None:
+            continue
+        if fn is None or fn(info):
+            return k
+    return None
+
+
+def report(prop, ev, results, prefixes):
+    """Prints VIOLATION / KNOWN-FINDING lines for `prop` from pipeline results
+    (each result: {"bad": {bid: {"preds": [[pred, line], ...], "schedule": ...}}}); returns the exit code."""
+    known = [k for k in known_findings() if k.get("property") == prop]
+    nviol, nknown, printed = 0, 0, set()
+    other = {}
+    for res in results:
+        for bid, info in sorted(res.get("bad", {}).items()):
+            mine = [p for p in info["preds"] if any(p[0].startswith(x) for x in prefixes)]
+            for p in info["preds"]:
+                if p not in mine:
+                    other[p[0]] = other.get(p[0], 0) + 1
+            if not mine:
+                continue
+            kf = match_known(known, mine, info)
+            if kf is not None:
+                nknown += 1
+                if kf["id"] not in printed:
+                    printed.add(kf["id"])
+                    print("KNOWN-FINDING: property=%s %s" % (prop, kf["what"]))
+                continue
+            nviol += 1
+            if nviol <= 5:
+                path = write_replay(prop, bid, info["schedule"], {"predicates": mine, "engine": res.get("engine", "yata")})
+                print("VIOLATION property=%s replay=%s  # %s at trace line %s of behaviour %s"
+                      % (prop, path, mine[0][0], mine[0][1], bid))
+    if nviol > 5:
+        print("# ... %d more violating behaviours of %s" % (nviol - 5, prop))
+    for p, n in sorted(other.items()):
+        print("# note: %d behaviours violate %s (reported by that property's own check)" % (n, p))
+    ev.violations = nviol
+    ev.cov["known_findings"] = nknown
+    return EXIT_VIOLATION if nviol else EXIT_OK
